@@ -67,7 +67,7 @@ Fixpoint trim_right_fuel (fuel : nat) (r : bytes) : bytes :=
            | n => trim_right_fuel f (skipn n r)
            end
   end.
-Definition trim_right (s : bytes) : bytes := rev (trim_right_fuel (length s) (rev s)).
+Definition trim_right (s : bytes) : bytes := frev (trim_right_fuel (length s) (frev s)).
 
 Definition trim_space (s : bytes) : bytes := trim_right (trim_left s).
 
